@@ -533,7 +533,37 @@ def history_strategy():
     d = decode_strategy().map(lambda t: ("decode",) + tuple(t))
     c = st.tuples(st.just("construct"), st.integers(0, 23))
     r = st.tuples(st.just("again"), st.integers(0, 1000))
-    return st.lists(st.one_of(d, d, c, r), min_size=1, max_size=30)
+    v = st.tuples(st.just("vandalise"), st.integers(0, 1000))
+    # one instance map kept by the program and filled in as it learns types (a bus monitor does exactly this)
+    small = st.integers(0, 2)
+    g = st.builds(lambda a, i, data: ("decode", 24, (a << 17) | 0x8000 | (i << 10) | data, 0, "grow"), small, small,
+                  st.sampled_from([0, 1, 5, 600, 1023]))
+    m = st.tuples(st.just("mapadd"), small, small, st.sampled_from([1, 3, 4, 0, 2, 31]))
+    return st.lists(st.one_of(d, d, c, r, v, g, m), min_size=1, max_size=30)
+
+
+def vandalise(c, k):
+    """What a careless caller may do to an object a decode handed out: renumber its address objects, flip bits of
+    its frame, add attributes.  Never raises."""
+    for attr in ("destination", "short_address", "instance"):
+        try:
+            o = getattr(c, attr, None)
+            for fld, top in (("address", 64), ("group", 16)):
+                if isinstance(getattr(o, fld, None), int) and not isinstance(getattr(o, fld), bool):
+                    setattr(o, fld, (getattr(o, fld) + 1 + k) % top)
+            if o is not None and hasattr(o, "__dict__"):
+                o.verif_note = k
+        except Exception:  # noqa - read-only attributes are fine
+            pass
+    try:
+        f = c.frame
+        f[k % len(f)] = not f[k % len(f)]
+    except Exception:  # noqa
+        pass
+    try:
+        c.verif_note = k
+    except Exception:  # noqa
+        pass
 
 
 def run_history(ops):
@@ -541,10 +571,42 @@ def run_history(ops):
     seen = {}
     order = []
     cons = constructors()
+    last = None
+    from dali.device.helpers import DeviceInstanceTypeMapper
+    command, frame = _load()
+    grow = DeviceInstanceTypeMapper()
+    entries = {}
     for op in ops:
         op = list(op)
         if op[0] == "construct":
             cons[op[1] % len(cons)]()
+            continue
+        if op[0] == "mapadd":
+            grow.add_type(short_address=op[1], instance_number=op[2], instance_type=op[3])
+            entries[(op[1], op[2])] = op[3]
+            continue
+        if op[0] == "decode" and op[4] == "grow":
+            # the program's own, growing map against a map built from scratch with the same entries
+            bits, v = op[1], op[2]
+            try:
+                a = command.from_frame(frame.ForwardFrame(bits, v), dev_inst_map=grow)
+                fresh = DeviceInstanceTypeMapper()
+                for (sa, inum), t in entries.items():
+                    fresh.add_type(short_address=sa, instance_number=inum, instance_type=t)
+                b = command.from_frame(frame.ForwardFrame(bits, v), dev_inst_map=fresh)
+            except Exception as e:  # noqa
+                return [("C01:decode-raised:%s@%s" % (type(e).__name__, library_frame(e.__traceback__)),
+                         "from_frame(24-bit %#x, growing map %r) raised %r" % (v, entries, e))]
+            if fp(a) != fp(b):
+                return [("C01:decode-depends-on-map-object-history",
+                         "24-bit %#x with the program's map (entries %r added over time) decodes %r, with a new map holding "
+                         "the same entries %r" % (v, entries, fp(a), fp(b)))]
+            last = a
+            continue
+        if op[0] == "vandalise":
+            if last is not None:
+                vandalise(last, op[1])
+                last = None
             continue
         if op[0] == "again":
             if not order:
@@ -557,6 +619,7 @@ def run_history(ops):
         if out:
             return out
         f = fp(c)
+        last = c
         if key in seen:
             if seen[key] != f:
                 return [("C01:impure-decode", "decode of %r gave %r first and %r later in the same history" % (key, seen[key], f))]
@@ -602,8 +665,8 @@ def _hyp_shard(arg):
                classify=lambda t: ["hyp:len16" if t[0] == 16 else "hyp:len24" if t[0] == 24 else "hyp:other-length"],
                to_json=lambda t: {"kind": "decode", "bits": t[0], "value": t[1], "dt": t[2], "map": t[3]})
     hyp.search(history_strategy(), run_history, res, max(50, n // 8), seed + 1, ID,
-               classify=lambda ops: ["history:" + o[0] for o in ops],
-               nontrivial=lambda ops: any(o[0] == "again" for o in ops) and any(o[0] == "construct" for o in ops),
+               classify=lambda ops: ["history:" + o[0] + (":growing-map" if o[0] == "decode" and o[4] == "grow" else "") for o in ops],
+               nontrivial=lambda ops: any(o[0] == "again" for o in ops) and any(o[0] in ("construct", "vandalise") for o in ops),
                to_json=lambda ops: {"kind": "history", "ops": [list(o) for o in ops]})
     purity_check(res, "after hypothesis shard")
     return res
